@@ -476,7 +476,7 @@ func (cr *chainRun) runQuery(q *query) ([]*types.Log, error) {
 	defer cancel()
 	switch q.Via {
 	case "api":
-		return cr.api.GetLogs(ctx, filters.FilterCriteria{FromBlock: big.NewInt(q.Begin), ToBlock: big.NewInt(q.End), Addresses: q.Addrs, Topics: q.Topics})
+		return cr.api.GetLogs(ctx, filters.FilterCriteria{FromBlock: big.NewInt(q.Begin), ToBlock: big.NewInt(q.End), Addresses: q.Addrs, Topics: q.effTopics()})
 	case "api_json":
 		var crit filters.FilterCriteria
 		if err := json.Unmarshal(q.jsonCriteria(), &crit); err != nil {
@@ -486,6 +486,13 @@ func (cr *chainRun) runQuery(q *query) ([]*types.Log, error) {
 	case "api_installed":
 		// eth_newFilter + eth_getFilterLogs: the installed-filter form of the same query
 		crit := filters.FilterCriteria{FromBlock: big.NewInt(q.Begin), ToBlock: big.NewInt(q.End), Addresses: q.Addrs, Topics: q.Topics}
+		if len(q.NullAlt) > 0 {
+			// a null among alternatives exists in JSON only: install the filter from the decoded JSON form
+			crit = filters.FilterCriteria{}
+			if err := json.Unmarshal(q.jsonCriteria(), &crit); err != nil {
+				return nil, fmt.Errorf("criteria json rejected: %v", err)
+			}
+		}
 		id, err := cr.api.NewFilter(crit)
 		if err != nil {
 			// the subscription system refuses some range shapes (begin > end, latest..number); ask directly
@@ -495,7 +502,7 @@ func (cr *chainRun) runQuery(q *query) ([]*types.Log, error) {
 		defer cr.api.UninstallFilter(id)
 		return cr.api.GetFilterLogs(ctx, id)
 	default:
-		return filters.New(cr.be, q.Begin, q.End, q.Addrs, q.Topics).Logs(ctx)
+		return filters.New(cr.be, q.Begin, q.End, q.Addrs, q.effTopics()).Logs(ctx)
 	}
 }
 
@@ -609,11 +616,34 @@ func (cr *chainRun) forced() []query {
 			}
 		}
 	}
+	// a JSON null inside the list of alternatives of a position: wildcard, wherever it stands
+	if x := pick(func(x *xlog) bool { return len(x.Topics) >= 2 }); x != nil {
+		g0, g1 := cr.w.GhostTopics[0], cr.w.GhostTopics[1] // never emitted: the criterion minus its null excludes every log
+		nv := 0
+		addNull := func(tmpl string, t [][]common.Hash, na map[int]int) {
+			ends := []int64{-1}
+			if boundary > 0 {
+				ends = append(ends, boundary-1)
+			}
+			for _, e := range ends {
+				qs = append(qs, query{Begin: 0, End: e, Topics: t, NullAlt: na, Tmpl: tmpl, Via: []string{"api_json", "api_installed"}[nv%2]})
+				nv++
+			}
+		}
+		addNull("null_first_in_alternatives", [][]common.Hash{{g0}}, map[int]int{0: 0})
+		addNull("null_middle_in_alternatives", [][]common.Hash{{g0, g1}}, map[int]int{0: 1})
+		addNull("null_last_in_alternatives", [][]common.Hash{{g0}}, map[int]int{0: 1})
+		addNull("null_first_then_value", [][]common.Hash{{g0}, one(x.Topics[1])}, map[int]int{0: 0})
+		addNull("value_then_null_first", [][]common.Hash{one(x.Topics[0]), {g1}}, map[int]int{1: 0})
+		addNull("value_then_null_middle", [][]common.Hash{one(x.Topics[0]), {g0, g1}}, map[int]int{1: 1})
+	}
 	qs = append(qs, cr.extraQ...)
 	vias := []string{"filter", "api", "api_json", "api_installed"}
 	off := r.Intn(4)
 	for i := range qs {
-		qs[i].Via = vias[(i+off)%4]
+		if qs[i].Via == "" {
+			qs[i].Via = vias[(i+off)%4]
+		}
 	}
 	return qs
 }
@@ -627,17 +657,25 @@ func (cr *chainRun) queries(id string, nRandom int, sample bool) {
 	for i := 0; i < nRandom; i++ {
 		q := query{Tmpl: "random", Via: []string{"filter", "filter", "api", "api_json", "api_installed"}[r.Intn(5)]}
 		q.Begin, q.End = rangeAround(r, head, boundary, int64(cr.d.Size))
-		q.Addrs, q.Topics = cr.pools.criteria(r)
+		q.Addrs, q.Topics, q.NullAlt = cr.pools.criteria(r)
+		if len(q.NullAlt) > 0 && (q.Via == "filter" || q.Via == "api") {
+			// the shape exists in JSON only
+			q.Via = []string{"api_json", "api_installed"}[r.Intn(2)]
+		}
 		qs = append(qs, q)
 	}
 	for qi := range qs {
-		q := &qs[qi]
-		in := queryInput{Chain: cr.d, State: cr.state, Head: uint64(head), Sections: sections, Q: *q}
+		qr := &qs[qi] // as sent
+		qe := *qr     // as meant: positions with a null among the alternatives are wildcards
+		qe.Topics = qr.effTopics()
+		qe.NullAlt = nil
+		q := &qe
+		in := queryInput{Chain: cr.d, State: cr.state, Head: uint64(head), Sections: sections, Q: *qr}
 		c.Case(fmt.Sprintf("%s/%s/q%d", id, cr.state, qi), in, func() {
 			lo, hi := resolve(q, head)
 			want := bruteForce(cr.canon, lo, hi, q)
 			path := pathOf(lo, hi, boundary)
-			got, err := cr.exec(q)
+			got, err := cr.exec(qr)
 			op := "Filter.Logs"
 			switch q.Via {
 			case "api", "api_json":
@@ -678,11 +716,17 @@ func (cr *chainRun) queries(id string, nRandom int, sample bool) {
 			if q.Begin >= 0 && q.End >= 0 && q.Begin > q.End {
 				c.Count("range_begin_after_end")
 			}
+			if len(qr.NullAlt) > 0 {
+				c.Count("criteria_null_inside_alternatives")
+				if qr.nullNotLast() {
+					c.Count("criteria_null_not_last")
+				}
+			}
 			cr.classify(q, lo, hi, want)
 			if sample && q.Tmpl == "random" && len(want) > 0 && path == "straddle" && c.Batch < 2 && !cr.sampled && len(q.Topics) > 0 {
 				cr.sampled = true
 				c.Sample(map[string]interface{}{"case": fmt.Sprintf("%s/%s/q%d", id, cr.state, qi), "chain": cr.d, "head": head, "sections": sections,
-					"query": q, "logs_returned": len(got)})
+					"query": qr, "logs_returned": len(got)})
 			}
 		})
 	}
